@@ -345,3 +345,290 @@ Proof.
     as (x & Hx & Hr).
   subst r. exact Hx.
 Qed.
+
+(* ------------------------------------------------------------------------------------------ *)
+(* BCF record stream *)
+
+Section BCFProofs.
+  Variable site_ok : list N -> option ekind.
+
+  Definition bcf_good (r : list N * list N) : Prop :=
+    (0 < length (fst r))%nat /\ N.of_nat (length (fst r)) < 4294967296 /\
+    N.of_nat (length (snd r)) < 4294967296 /\ site_ok (fst r) = None.
+
+  Lemma bcf_read_record_cons : forall after b t,
+    bcf_read_record site_ok after (b :: t) =
+      match take 4 (b :: t) with
+      | None => Stop (Err (short after))
+      | Some (h, r) =>
+        if le_dec h =? 0 then Stop Eof else
+        match take 4 r with
+        | None => Stop (Err (short after))
+        | Some (h2, r2) =>
+          match take (le_dec h) r2 with
+          | None => Stop (Err (short after))
+          | Some (site, r3) =>
+            match site_ok site with
+            | Some e => Stop (Err e)
+            | None =>
+              match take (le_dec h2) r3 with
+              | None => Stop (Err (short after))
+              | Some (samples, r4) => Item (site, samples) r4
+              end
+            end
+          end
+        end
+      end.
+  Proof. reflexivity. Qed.
+
+  Lemma bcf_rd_full : forall after r rest, bcf_good r ->
+    bcf_read_record site_ok after (bcf_encode_record r ++ rest) = Item r rest.
+  Proof.
+    intros after [site samples] rest (Hne & Hl1 & Hl2 & Hv). cbn [fst snd] in *.
+    unfold bcf_encode_record. cbn [fst snd].
+    destruct (le32_cons (N.of_nat (length site))) as (b & t & Hbt).
+    repeat rewrite <- app_assoc. rewrite Hbt. cbn [app]. rewrite bcf_read_record_cons.
+    change (b :: t ++ ?x) with ((b :: t) ++ x). rewrite <- Hbt.
+    rewrite (take_app_n 4 (le32 (N.of_nat (length site)))) by (rewrite le32_length; reflexivity).
+    assert (D1 : le_dec (le32 (N.of_nat (length site))) = N.of_nat (length site)).
+    { unfold le32. apply le_dec_le_bytes. exact Hl1. }
+    assert (D2 : le_dec (le32 (N.of_nat (length samples))) = N.of_nat (length samples)).
+    { unfold le32. apply le_dec_le_bytes. exact Hl2. }
+    rewrite D1.
+    assert (E0 : (N.of_nat (length site) =? 0) = false) by lia. rewrite E0.
+    rewrite (take_app_n 4 (le32 (N.of_nat (length samples)))) by (rewrite le32_length; reflexivity).
+    rewrite take_app. rewrite Hv. rewrite D2.
+    rewrite take_app. reflexivity.
+  Qed.
+
+  Lemma bcf_rd_part : forall after r j, bcf_good r ->
+    (0 < j < length (bcf_encode_record r))%nat ->
+    bcf_read_record site_ok after (firstn j (bcf_encode_record r)) = Stop (Err (short after)).
+  Proof.
+    intros after [site samples] j (Hne & Hl1 & Hl2 & Hv) Hj. cbn [fst snd] in *.
+    unfold bcf_encode_record in *. cbn [fst snd] in *.
+    repeat rewrite app_length in Hj. repeat rewrite le32_length in Hj.
+    set (L1 := le32 (N.of_nat (length site))) in *.
+    set (L2 := le32 (N.of_nat (length samples))) in *.
+    assert (HL1 : length L1 = 4%nat) by apply le32_length.
+    assert (HL2 : length L2 = 4%nat) by apply le32_length.
+    destruct (firstn_nonempty (L1 ++ L2 ++ site ++ samples) j) as (b & t & Hbt);
+      [lia|rewrite app_length; lia|].
+    rewrite Hbt, bcf_read_record_cons, <- Hbt.
+    destruct (Nat.ltb j 4) eqn:E4.
+    { rewrite take_firstn_short by lia. reflexivity. }
+    rewrite firstn_app_ge by lia. rewrite HL1.
+    rewrite (take_app_n 4 L1) by (rewrite HL1; reflexivity).
+    assert (D1 : le_dec L1 = N.of_nat (length site)).
+    { unfold L1, le32. apply le_dec_le_bytes. exact Hl1. }
+    rewrite D1.
+    assert (E0 : (N.of_nat (length site) =? 0) = false) by lia. rewrite E0.
+    destruct (Nat.ltb (j - 4) 4) eqn:E8.
+    { rewrite take_firstn_short by lia. reflexivity. }
+    rewrite firstn_app_ge by lia. rewrite HL2.
+    rewrite (take_app_n 4 L2) by (rewrite HL2; reflexivity).
+    assert (D2 : le_dec L2 = N.of_nat (length samples)).
+    { unfold L2, le32. apply le_dec_le_bytes. exact Hl2. }
+    destruct (Nat.ltb (j - 4 - 4) (length site)) eqn:Es.
+    { rewrite take_firstn_short by lia. reflexivity. }
+    rewrite firstn_app_ge by lia.
+    rewrite take_app. rewrite Hv. rewrite D2.
+    rewrite take_firstn_short by lia. reflexivity.
+  Qed.
+
+  Lemma bcf_enc_nonempty : forall r, bcf_good r -> (0 < length (bcf_encode_record r))%nat.
+  Proof. intros r _. unfold bcf_encode_record. rewrite app_length, le32_length. lia. Qed.
+
+  Definition bcf_encode (rs : list (list N * list N)) : list N := encode _ bcf_encode_record rs.
+
+  Theorem bcf_stream_truncation : forall after rs k, Forall bcf_good rs ->
+    exists j : nat,
+      (j <= length rs)%nat /\
+      (length (bcf_encode (firstn j rs)) <= k)%nat /\
+      (j < length rs -> k < length (bcf_encode (firstn (S j) rs)))%nat /\
+      read_stream (bcf_read_record site_ok after) (firstn k (bcf_encode rs)) =
+        (firstn j rs,
+         if (j <? length rs)%nat && negb (k =? length (bcf_encode (firstn j rs)))%nat
+         then Err (short after) else after).
+  Proof.
+    intros after rs k Hg.
+    destruct (stream_truncation_generic _ _ bcf_encode_record (fun r => r) bcf_good
+                (bcf_read_record site_ok after) after (fun _ _ => Err (short after))
+                eq_refl (bcf_rd_full after) (bcf_rd_part after) bcf_enc_nonempty rs k Hg)
+      as (j & H1 & H2 & H3 & H4).
+    exists j. split; [exact H1|]. split; [exact H2|]. split; [exact H3|].
+    unfold bcf_encode. rewrite H4. rewrite map_id. f_equal.
+    destruct (nth_error rs j) as [x|] eqn:En.
+    - assert (Hlt : (j < length rs)%nat) by (apply nth_error_Some; congruence).
+      apply Nat.ltb_lt in Hlt. rewrite Hlt. cbn [andb].
+      destruct (k =? length (encode _ bcf_encode_record (firstn j rs)))%nat; reflexivity.
+    - apply nth_error_None in En. assert (Hge : (j <? length rs)%nat = false) by lia.
+      rewrite Hge. reflexivity.
+  Qed.
+End BCFProofs.
+
+(* ------------------------------------------------------------------------------------------ *)
+(* BGZF block sequence *)
+
+Lemma le_at_firstn : forall off len n (l : list N), (off + len <= n)%nat ->
+  le_at off len (firstn n l) = le_at off len l.
+Proof.
+  intros off len n l H. unfold le_at. f_equal.
+  rewrite skipn_firstn_comm. rewrite firstn_firstn. f_equal. lia.
+Qed.
+
+Section BGZFProofs.
+  Variable inflate : list N -> option (list N).
+
+  (* a frame as the writer produces it: BSIZE + 1 is its length, at least header + trailer, and
+     it passes parse_block (header constants, ISIZE bound, DEFLATE + CRC) *)
+  Definition frame_good (f : list N) : Prop :=
+    (26 <= length f)%nat /\ N.of_nat (length f) = le_at 16 2 f + 1 /\
+    exists d, parse_block inflate f = inr d.
+
+  Definition frame_data (f : list N) : list N :=
+    match parse_block inflate f with inr d => d | inl _ => [] end.
+
+  (* the code's convention: a partial 18-byte header reads as a clean end *)
+  Definition bgzf_pout (f : list N) (j : nat) : stop :=
+    if (j <? 18)%nat then Eof else Err UnexpectedEof.
+
+  Lemma read_frame_full : forall f rest, frame_good f -> read_frame (f ++ rest) = Item f rest.
+  Proof.
+    intros f rest (Hlen & Hbs & _). unfold read_frame, bgzf_header_size, bgzf_min_frame_size.
+    rewrite take_spec. rewrite app_length.
+    assert (E : (N.of_nat (length f + length rest) <? 18) = false) by lia. rewrite E.
+    change (N.to_nat 18) with 18%nat.
+    rewrite firstn_app_lt by lia. rewrite le_at_firstn by lia. rewrite <- Hbs.
+    assert (E2 : (N.of_nat (length f) <? 26) = false) by lia. rewrite E2.
+    rewrite skipn_app. replace (18 - length f)%nat with O by lia. change (skipn 0 rest) with rest.
+    rewrite take_app_n by (rewrite skipn_length; lia).
+    rewrite firstn_skipn. reflexivity.
+  Qed.
+
+  Lemma read_frame_part : forall f j, frame_good f -> (0 < j < length f)%nat ->
+    read_frame (firstn j f) = Stop (bgzf_pout f j).
+  Proof.
+    intros f j (Hlen & Hbs & _) Hj. unfold read_frame, bgzf_pout, bgzf_header_size, bgzf_min_frame_size.
+    rewrite take_spec. rewrite firstn_length.
+    destruct (j <? 18)%nat eqn:E18.
+    - assert (E : (N.of_nat (Nat.min j (length f)) <? 18) = true) by lia. rewrite E. reflexivity.
+    - assert (E : (N.of_nat (Nat.min j (length f)) <? 18) = false) by lia. rewrite E.
+      change (N.to_nat 18) with 18%nat.
+      rewrite firstn_firstn. replace (Nat.min 18 j) with 18%nat by lia.
+      rewrite le_at_firstn by lia. rewrite <- Hbs.
+      assert (E2 : (N.of_nat (length f) <? 26) = false) by lia. rewrite E2.
+      rewrite take_short; [reflexivity|]. rewrite skipn_length, firstn_length. lia.
+  Qed.
+
+  Lemma bgzf_rd_full : forall f rest, frame_good f ->
+    bgzf_read_block inflate (f ++ rest) = Item (frame_data f) rest.
+  Proof.
+    intros f rest Hg. unfold bgzf_read_block. rewrite read_frame_full by exact Hg.
+    destruct Hg as (_ & _ & d & Hd). unfold frame_data. rewrite Hd. reflexivity.
+  Qed.
+
+  Lemma bgzf_rd_part : forall f j, frame_good f -> (0 < j < length f)%nat ->
+    bgzf_read_block inflate (firstn j f) = Stop (bgzf_pout f j).
+  Proof.
+    intros f j Hg Hj. unfold bgzf_read_block. rewrite read_frame_part by assumption. reflexivity.
+  Qed.
+
+  Lemma bgzf_rd_nil : bgzf_read_block inflate [] = Stop Eof.
+  Proof. reflexivity. Qed.
+
+  Lemma frame_nonempty : forall f, frame_good f -> (0 < length f)%nat.
+  Proof. intros f (H & _). lia. Qed.
+
+  Definition bgzf_file (fs : list (list N)) : list N := encode _ (fun f => f) fs.
+
+  (* For every sequence of well-formed frames and every cut k: the blocks read are the data of
+     exactly the frames lying wholly inside the cut; the reader then reports a clean end iff the
+     cut is at a frame boundary or fewer than 18 bytes into the next frame, and UnexpectedEof
+     otherwise. *)
+  Theorem bgzf_truncation : forall fs k, Forall frame_good fs ->
+    exists j : nat,
+      (j <= length fs)%nat /\
+      (length (bgzf_file (firstn j fs)) <= k)%nat /\
+      (j < length fs -> k < length (bgzf_file (firstn (S j) fs)))%nat /\
+      bgzf_blocks inflate (firstn k (bgzf_file fs)) =
+        (map frame_data (firstn j fs),
+         if (j <? length fs)%nat && negb (k - length (bgzf_file (firstn j fs)) <? 18)%nat
+         then Err UnexpectedEof else Eof).
+  Proof.
+    intros fs k Hg.
+    destruct (stream_truncation_generic _ _ (fun f : list N => f) frame_data frame_good
+                (bgzf_read_block inflate) Eof bgzf_pout
+                bgzf_rd_nil bgzf_rd_full bgzf_rd_part frame_nonempty fs k Hg)
+      as (j & H1 & H2 & H3 & H4).
+    exists j. split; [exact H1|]. split; [exact H2|]. split; [exact H3|].
+    unfold bgzf_blocks, bgzf_file. rewrite H4. f_equal.
+    destruct (nth_error fs j) as [x|] eqn:En.
+    - assert (Hlt : (j < length fs)%nat) by (apply nth_error_Some; congruence).
+      apply Nat.ltb_lt in Hlt. rewrite Hlt. cbn [andb]. unfold bgzf_pout.
+      unfold bgzf_file in H2.
+      destruct (k =? length (encode _ (fun f : list N => f) (firstn j fs)))%nat eqn:Ek.
+      + assert (Ez : (k - length (encode _ (fun f : list N => f) (firstn j fs)) <? 18)%nat = true) by lia.
+        rewrite Ez. reflexivity.
+      + destruct (k - length (encode _ (fun f : list N => f) (firstn j fs)) <? 18)%nat; reflexivity.
+    - apply nth_error_None in En. assert (Hge : (j <? length fs)%nat = false) by lia.
+      rewrite Hge. reflexivity.
+  Qed.
+
+  Theorem bgzf_no_fabrication : forall fs k i d, Forall frame_good fs ->
+    nth_error (fst (bgzf_blocks inflate (firstn k (bgzf_file fs)))) i = Some d ->
+    exists f, nth_error fs i = Some f /\ d = frame_data f.
+  Proof.
+    intros fs k i d Hg Hn.
+    exact (no_fabrication_generic _ _ (fun f : list N => f) frame_data frame_good
+             (bgzf_read_block inflate) Eof bgzf_pout
+             bgzf_rd_nil bgzf_rd_full bgzf_rd_part frame_nonempty fs k i d Hg Hn).
+  Qed.
+End BGZFProofs.
+
+(* ------------------------------------------------------------------------------------------ *)
+(* BAM record reader layered on the BGZF reader *)
+
+Section Layered.
+  Variable inflate : list N -> option (list N).
+
+  Lemma concat_map_firstn_prefix : forall (fs : list (list N)) (g : list N -> list N) j,
+    concat (map g (firstn j fs)) =
+      firstn (length (concat (map g (firstn j fs)))) (concat (map g fs)).
+  Proof.
+    intros fs g j. rewrite <- (firstn_skipn j fs) at 3. rewrite map_app, concat_app.
+    rewrite firstn_app, Nat.sub_diag, firstn_all. cbn [firstn]. now rewrite app_nil_r.
+  Qed.
+
+  (* A BAM file = frames whose data concatenate to header bytes ++ encoded records.  Cut anywhere:
+     the BGZF layer delivers the data p of the frames wholly inside the cut and then reports s
+     (Eof, or UnexpectedEof when the cut is 18 or more bytes into a frame); the record reader then
+     behaves exactly as the plain-stream reader on the first |p| - |header| bytes of the record
+     stream, with s as what follows -- so bam_stream_truncation describes its result: the records
+     wholly inside p, then Eof only if s = Eof and p ends at a record boundary. *)
+  Theorem bam_over_bgzf_truncation : forall fs rs hdrbytes k,
+    Forall (frame_good inflate) fs ->
+    concat (map (frame_data inflate) fs) = hdrbytes ++ bam_encode rs ->
+    exists (j : nat) (s : stop),
+      bgzf_blocks inflate (firstn k (bgzf_file fs)) = (map (frame_data inflate) (firstn j fs), s) /\
+      (s = Eof \/ s = Err UnexpectedEof) /\
+      let p := concat (map (frame_data inflate) (firstn j fs)) in
+      bam_over_bgzf inflate (length hdrbytes) (firstn k (bgzf_file fs)) =
+        if (length p <? length hdrbytes)%nat then None
+        else Some (read_stream (bam_read_record s)
+                     (firstn (length p - length hdrbytes) (bam_encode rs))).
+  Proof.
+    intros fs rs hdrbytes k Hg Hcat.
+    destruct (bgzf_truncation inflate fs k Hg) as (j & _ & _ & _ & Hb).
+    eexists j, _. split; [exact Hb|]. split.
+    { destruct ((j <? length fs)%nat && negb (k - length (bgzf_file (firstn j fs)) <? 18)%nat); auto. }
+    cbn zeta. unfold bam_over_bgzf. rewrite Hb.
+    set (p := concat (map (frame_data inflate) (firstn j fs))).
+    destruct (length p <? length hdrbytes)%nat eqn:E; [reflexivity|].
+    f_equal. f_equal.
+    assert (Hp : p = firstn (length p) (hdrbytes ++ bam_encode rs)).
+    { rewrite <- Hcat. apply concat_map_firstn_prefix. }
+    rewrite firstn_app_ge in Hp by lia.
+    rewrite Hp at 1. rewrite skipn_app, skipn_all, Nat.sub_diag. reflexivity.
+  Qed.
+End Layered.
